@@ -17,9 +17,10 @@ VARIABLES init, want0,       \* call-time array and requested position
           arr, lo, hi, want, \* current array, window [lo, hi), position relative to the window
           pc,                \* "run" | "done" | "panic"
           ret,
-          pivots             \* history: <<n, p>> per recursion level
+          pivots,            \* history: <<n, p>> per recursion level
+          perm, lastq        \* ghosts for the refinement of SelectAlg: original position of each element; last rearrangement
 
-vars == <<init, want0, arr, lo, hi, want, pc, ret, pivots>>
+vars == <<init, want0, arr, lo, hi, want, pc, ret, pivots, perm, lastq>>
 view == <<init, want0, arr, lo, hi, want, pc, ret>>
 
 Requests(n) == IF OutOfRange THEN 0..(n + 1) \cup {BIG} ELSE 0..(n - 1)
@@ -29,6 +30,7 @@ Init ==
     /\ want0 \in Requests(Len(init))
     /\ arr = init /\ lo = 0 /\ hi = Len(init) /\ want = want0
     /\ pc = "run" /\ ret = 0 /\ pivots = <<>>
+    /\ perm = [x \in 0..(Len(init) - 1) |-> x] /\ lastq = [x \in 0..(Len(init) - 1) |-> x]
 
 n_ == hi - lo
 
@@ -36,7 +38,7 @@ n_ == hi - lo
 CheckRange ==
     /\ pc = "run" /\ FixF2 /\ want >= n_
     /\ pc' = "panic"
-    /\ UNCHANGED <<init, want0, arr, lo, hi, want, ret, pivots>>
+    /\ UNCHANGED <<init, want0, arr, lo, hi, want, ret, pivots, perm, lastq>>
 
 Guarded == pc = "run" /\ (FixF2 => want < n_)
 
@@ -44,13 +46,13 @@ Guarded == pc = "run" /\ (FixF2 => want < n_)
 LenOneShortcut ==
     /\ Guarded /\ n_ = 1
     /\ ret' = At(arr, lo) /\ pc' = "done"
-    /\ UNCHANGED <<init, want0, arr, lo, hi, want, pivots>>
+    /\ UNCHANGED <<init, want0, arr, lo, hi, want, pivots, perm, lastq>>
 
 (* sort.rs:119: gen_range(0..0) panics ("cannot sample empty range"). *)
 EmptyRangePanic ==
     /\ Guarded /\ n_ = 0
     /\ pc' = "panic"
-    /\ UNCHANGED <<init, want0, arr, lo, hi, want, ret, pivots>>
+    /\ UNCHANGED <<init, want0, arr, lo, hi, want, ret, pivots, perm, lastq>>
 
 (* sort.rs:118-129 *)
 DrawAndPartition(p) ==
@@ -59,8 +61,10 @@ DrawAndPartition(p) ==
            k == r[2]
        IN /\ pivots' = Append(pivots, <<n_, p>>)
           /\ IF k = PANIC
-             THEN pc' = "panic" /\ UNCHANGED <<arr, lo, hi, want, ret>>
+             THEN pc' = "panic" /\ UNCHANGED <<arr, lo, hi, want, ret, perm, lastq>>
              ELSE /\ arr' = r[1]
+                  /\ lastq' = MatchPerm(arr, r[1])
+                  /\ perm' = [x \in DOMAIN perm |-> perm[MatchPerm(arr, r[1])[x]]]
                   /\ IF want < k                                   \* GoLeft
                      THEN hi' = lo + k /\ UNCHANGED <<lo, want, ret, pc>>
                      ELSE IF want = k                              \* Hit
@@ -101,7 +105,7 @@ Terminates == <>(pc # "run")
 (* (SelectAlg.tla, proofs in SelectProof.tla): every behaviour of this machine with an in-range position is a   *)
 (* behaviour of that one - in particular each partition step satisfies the contract assumed there.              *)
 ZeroBased(s) == [x \in 0..(Len(s) - 1) |-> s[x + 1]]
-PP == INSTANCE SelectAlg WITH Len0 <- Len(init), Want0 <- want0, arr <- ZeroBased(arr)
+PP == INSTANCE SelectAlg WITH Len0 <- Len(init), Want0 <- want0, Arr0 <- ZeroBased(init), arr <- ZeroBased(arr)
 RefinesProof == PP!Spec
 
 (* One line per complete behaviour, replayed into the real code by the harness. *)
